@@ -2,8 +2,8 @@
 # Runs every seeded change against the quick check of its property (or the checks listed in seeded/<name>/checks, in the
 # tier named in seeded/<name>/tier) and writes seeded/RESULTS.md.  PAR changes run at a time (default 3).
 cd /verif
-out=seeded/RESULTS.md
-rows=/tmp/seedrows; rm -rf $rows; mkdir -p $rows
+out=${OUT_MD:-seeded/RESULTS.md}
+rows=${ROWS:-/tmp/seedrows}; export rows; rm -rf $rows; mkdir -p $rows
 row() {
   d=seeded/$1/
   name=$1
@@ -17,7 +17,7 @@ row() {
   summary=$(/venv/bin/python -c "import json;m=json.load(open('$d/meta.json'));print(m.get('summary','').replace('|','/').replace('\n',' ')[:160])")
   needs=$(/venv/bin/python -c "import json;m=json.load(open('$d/meta.json'));print(str(m.get('needs','')).replace('|','/').replace('\n',' ')[:160])")
   res="MISSED"; [ "$rc" = "1" ] && res="caught ($t, $tier tier)"; [ "$rc" = "2" ] && res="harness problem"
-  echo "| $name | $prop | $summary | $needs | $res | $sigs |" > /tmp/seedrows/$name.row
+  echo "| $name | $prop | $summary | $needs | $res | $sigs |" > $rows/$name.row
 }
 export -f row
 ls seeded | grep -E '^C[0-9]+-m[0-9]+$' | xargs -P ${PAR:-3} -I{} bash -c 'row {}'
